@@ -7,7 +7,7 @@ def run(res, tier, replay=None):
     res.functions = sum(1 for _ in prog.all_funcs())
     c04.run(prog, res)
     c04c.run(prog, res, prims=c01.primitives(prog))
-    c04c.run_bounds(prog, res, "C04", "C04.d", {"eval.c", "bignum.c", "sexp.c", "bit.c", "vm.c"}, floor=2)
+    c04c.run_bounds(prog, res, "C04", "C04.d", {"eval.c", "bignum.c", "sexp.c", "bit.c", "vm.c"}, floor=0)
     c04c.bounds_witnesses(prog, res)
     res.assumptions = common.ASSUMPTIONS
     res.explanation = (
